@@ -34,7 +34,6 @@ void replay_load_heap(void)
 #ifdef VERIF_NATIVE
     memcpy((void*)(uintptr_t)HEAP_BASE, heap_img, heap_len < HEAP_SIZE ? heap_len : HEAP_SIZE);
 #else
-    extern uint8_t HEAP[];
     memcpy(HEAP, heap_img, heap_len < HEAP_SIZE ? heap_len : HEAP_SIZE);
 #endif
 }
